@@ -406,7 +406,21 @@ func (r *Transport) reconnect(old transport.Transport) error {
 		}
 		newTransport, err := r.reconnector.Connect()
 		if err == nil {
-			if _, err := newTransport.Read(); err != nil {
+			// the peer greets a reconnected client with one message; a peer that never sends it must not keep this
+			// function - it holds the transport's mutex - from noticing that the transport was closed
+			greeted := make(chan error, 1)
+			go func() {
+				_, err := newTransport.Read()
+				greeted <- err
+			}()
+			select {
+			case err = <-greeted:
+			case <-r.ctx.Done():
+				newTransport.Close() // releases the pending read
+				return errors.ErrConnectionClosed
+			}
+			if err != nil {
+				newTransport.Close() // not installed: nobody else would close it
 				rerr = err
 				if !r.pause() {
 					return errors.ErrConnectionClosed
